@@ -4,11 +4,16 @@ def _jobs(tier):
     jobs = []
     for k in range(1, 63):
         jobs.append(dict(sub="vec", count=4000 * mult, fix=dict(k=k, kN=(1, 6))))
-        jobs.append(dict(sub="kernel", count=2000 * mult, fix=dict(k=k)))
+        jobs.append(dict(sub="kernel", count=2000 * mult, fix=dict(k=k, logn=(0, 6))))
     for k in range(1, 63, 4):
         jobs.append(dict(sub="vec", count=1500 * mult, fix=dict(k=(k, min(62, k + 3)), kN=(1, 6)), flavour="asan"))
     for kN in range(7, 13):
         jobs.append(dict(sub="vec", count=300 * mult, fix=dict(kN=kN)))
+    # large rings (N = 8192, 16384: any size-dependent strategy inside the limb primitive), in place and out of place
+    for kN in (13, 14):
+        jobs.append(dict(sub="vec", count=80 * mult, fix=dict(kN=kN)))
+        jobs.append(dict(sub="vec", count=60 * mult, fix=dict(kN=kN, inplace=1, res_size=(2, 7), a_size=(2, 7))))
+    jobs.append(dict(sub="kernel", count=1500 * mult, fix=dict(logn=(7, 14))))
     for k in (1, 2, 3):
         w = 1 << (k + 2)
         for nl in range(0, 4):
@@ -35,11 +40,11 @@ PLAN = dict(
          "(kernel: a carry argument is present).",
     assumptions=["|a_i| <= 2^62 (documented operand range); |carry_in| <= 2^(63-k)", "oracle: __int128 carry chain + GMP congruence"],
     quick=_jobs("quick"), thorough=_jobs("thorough"),
-    fuzz=[desc_fuzz("C05", fix=dict(kN=(1, 8)), skip_subs=['exhaustive']),
+    fuzz=[desc_fuzz("C05", fix=dict(kN=(1, 8), logn=(0, 8)), skip_subs=['exhaustive']),
           dict(target="fuzz/normalize.cpp", deps=["props/c05.cpp"], corpus="fuzz/corpus/normalize", extra_link=["-lgmp"], max_len=1024, flags=["-use_value_profile=1"],
                quick=dict(mode="replay"), thorough=dict(mode="campaign", workers=16, runs=400000))],
     required_classes=dict(all=["a_size=0", "res_size=0", "res<a", "res>a", "inplace", "begin==xend", "step>1", "module:NTT120",
                                "variant:vec_znx_normalize_base2k", "variant:vec_znx_big_normalize_base2k",
-                               "variant:vec_znx_big_range_normalize_base2k", "variant:znx_normalize"]
+                               "variant:vec_znx_big_range_normalize_base2k", "variant:znx_normalize", "N>=8192 inplace"]
                           + ["k:%d" % k for k in range(1, 63)] + ["combo:%d" % i for i in range(6)]),
 )
